@@ -115,10 +115,13 @@ def trap_failures(ops, outs):
                      "signature": {"oracle": "no_trap", "kind": o, "at": op.split(" ")[0]}}]
     return []
 
-def replay(ops, outs):
-    """Re-derives, from an implementation run, per-peer event lists with virtual times and the datagram logs."""
+def replay(ops, outs, timeline=None):
+    """Re-derives, from an implementation run, per-peer event lists with virtual times and the datagram logs.
+    `timeline` (a list, optional) receives the server-side happenings in OPERATION order (several operations share one
+    virtual instant): (time, "C"/"D"/"E"/"R"/"drop"/"syn", peer)."""
     time = 0
     sev = []; cev = {}; log = {}; delivered = []; calls = []
+    tl = timeline if timeline is not None else []
     for op, o in zip(ops, outs):
         t = op.split(" ")
         if t[0] == "t":
@@ -129,6 +132,7 @@ def replay(ops, outs):
                 m = re.match(r"^([CDRE])(\d+|\?)(?::(.*))?$", e)
                 if m:
                     sev.append((time, m.group(1), int(m.group(2)) if m.group(2) != "?" else -1, m.group(3)))
+                    tl.append((time, m.group(1), sev[-1][2]))
             rep = o.split("|", 1)[1]
         elif t[0] == "cstep" and o.startswith("ev"):
             i = int(t[1])
@@ -147,13 +151,19 @@ def replay(ops, outs):
             rep = o[2:]; calls.append((time, "connect", i))
         elif t[0] in ("cdisc", "cdiscnow", "sdisc", "sdiscnow", "sdrop") and o == "ok":
             calls.append((time, t[0], int(t[1])))
+            if t[0] == "sdrop":
+                tl.append((time, "drop", int(t[1])))
         elif t[0] == "fwd" and o == "ok":
             d = log.get((int(t[2]), t[1]), [])
             idx = int(t[3])
             if idx < len(d):
                 delivered.append((time, t[1], int(t[2]), d[idx]))
+                if t[1] == "c2s" and d[idx].get("kind") == "syn":
+                    tl.append((time, "syn", int(t[2])))
         elif t[0] == "raw" and o == "ok":
             delivered.append((time, t[1], int(t[2]), parse_raw(t[3])))
+            if t[1] == "c2s" and delivered[-1][3].get("kind") == "syn":
+                tl.append((time, "syn", int(t[2])))
         if rep:
             for (peer, dr, dgs) in parse_report(rep):
                 lst = log.setdefault((peer, dr), [])
